@@ -2,6 +2,7 @@ SPEC = {
     "id": "C06",
     "components": [
         {"comp": "flow_recv", "module": "QV.Model.FlowRecv", "quick": 1500, "thorough": 40000},
+        {"comp": "sim_c06h", "module": "QV.Sys.MonC03", "quick": 112, "thorough": 3000, "pymod": "sim_c03h"},
     ],
     "assumptions": [
         "stream data is modelled by offsets and lengths (contents: C01); reads are observed as the number of bytes returned by a Chunks::next loop with a byte budget, so chunk boundaries are not observed",
